@@ -302,6 +302,8 @@ def scenarios(k, tier):
     """-> list of scenario = list of (keyword, text or then-tuple)"""
     acts = ACTIONS[k]
     blocks = [[a] for a in acts] + [[a, b] for a in acts for b in acts]
+    if tier == 'thorough':
+        blocks += [[a, b, c] for a in acts for b in acts for c in acts]
     thens = then_steps(k)
     out = []
     # one when-block + one then
@@ -314,6 +316,12 @@ def scenarios(k, tier):
         for a in acts:
             for t in thens:
                 out.append([('given', g), ('when', a), ('then', t)])
+    if tier == 'thorough':      # two given steps
+        for g in acts:
+            for g2 in acts:
+                for a in acts[:4]:
+                    for t in thens:
+                        out.append([('given', g), ('given', g2), ('when', a), ('then', t)])
     # two when-blocks separated by a (true) then: the first block must not leak into the verdict
     firsts = acts[:3] if tier == 'quick' else acts
     for a in firsts:
@@ -327,6 +335,14 @@ def scenarios(k, tier):
             for t in thens:
                 if t[0] in ('state', 'event', 'eventp', 'eventt', 'noevent'):
                     out.append([('when', a), ('given', g), ('then', t)])
+    # ... also when the when-block goes on after the given step
+    inner = acts[:4] if tier == 'quick' else acts
+    for a in firsts:
+        for g in inner:
+            for b in inner:
+                for t in thens:
+                    if t[0] in ('state', 'event', 'eventp', 'eventt', 'noevent'):
+                        out.append([('when', a), ('given', g), ('when', b), ('then', t)])
     # reproduce: the given/when steps of a library scenario replayed as given, resp. as when
     for p in LIBRARY[k]:
         for t in thens:
